@@ -58,6 +58,23 @@ CLAIMED.update({
            'Outside: ak.fill_none/is_none/mask Python wrappers, fillna merge step, simplify_optiontype.', 'DESIGN.md section 3 (C09)'),
 })
 
+CLAIMED.update({
+ 'C02': mc('2-safety by self-composition, decided by the solver: the same structural kernel (getitem_next_at/range/array, num, compact_offsets, '
+           'min_range, rpad length, combinations_length) is run on two encodings of the same list structure - ListArray(starts, stops) of width '
+           '32/U32/64 with arbitrary origin, gaps and overlap vs the compact zero-based 64-bit form - and must give the same error outcome, counts and '
+           'relative carries; five option encodings are checked against one validity vector; normalisation kernels (compact_offsets, toRegularArray, '
+           'contiguous positions) meet their list-semantics contract.',
+           'Kernel level: the C++ methods that decide when to normalise (toListOffsetArray64, project, content restriction) and Python-level operations '
+           'are outside. Bounds: n <= 2/3 lists of length <= 3, |step| <= 2.', 'DESIGN.md section 3 (C02)',
+           'SMT bounded 2-safety (self-composition) over kernel LLVM IR (llbmc + z3); native ASan replay'),
+ 'C12': mc('Safety sweep over every kernel with an executable definition (quick: one specialization per kernel; thorough: all): footprint inside the '
+           'extent its specification touches, no store to a Const argument, no division trap, unwinding assertions; validity kernels on arbitrary contents; '
+           'sizing pairs (carrylength->range, numtrue->nonzero, rpad length->fill, combinations_length->combinations) with the C++ capacity '
+           'expressions; zero-length twins.',
+           'Kernel level; whole-operation purity, lifetime, Python-level behaviour and allocation failure are outside. Known findings: min_range on a '
+           'zero-length array, broadcast_tooffsets with non-monotone offsets.', 'DESIGN.md section 3 (C12)'),
+})
+
 NOT_APPLICABLE = {
  'C10': 'record field plumbing lives in std::string/std::vector<shared_ptr> code of RecordArray.cpp and in Python glue over _ext, which cannot be built (pybind11 headers absent); no integer kernel carries the property',
  'C15': 'io/json.cpp is a rapidjson SAX client; rapidjson headers are absent so the file cannot be compiled or lowered to IR',
@@ -65,7 +82,7 @@ NOT_APPLICABLE = {
  'C17': 'Form/Type JSON and parameters need rapidjson; type strings are std::string building; the datashape parser is a Lark table over regex lexing that builds _ext objects',
  'C20': 'Numba lowering needs _ext arrays to type against and only emits IR inside a Numba compile (Numba API mismatch, _ext absent)',
 }
-PENDING = ['C02', 'C06', 'C12', 'C14', 'C18', 'C19']
+PENDING = ['C06', 'C14', 'C18', 'C19']
 
 checks = []
 for pid, c in sorted(CLAIMED.items()):
